@@ -22,6 +22,7 @@ EXPECT = {   # settled named outputs for the values written in the corpus source
     "fan-proj": {"u": 462},
     "fan-proj-items": {"u": 132},
     "same-name-chain": {"b": 72},
+    "cmp-same-type": {"lt": 1, "ge": 9},
 }
 
 
@@ -40,7 +41,7 @@ def behaviour(bp):
             if len(out[name]) == 1:
                 out[name] = list(out[name].values())[0]
     return out
-QUICK_PROGS = ["arith", "cond", "cell", "latch-sr", "entity", "fan-proj"]
+QUICK_PROGS = ["arith", "cmp-same-type", "cell", "latch-sr", "entity", "fan-proj"]
 
 
 def decode(text, as_json):
